@@ -47,6 +47,22 @@ func FamilyConc(tier string) []*Scenario {
 	// a failing sequence with tolerance
 	out = append(out, &Scenario{Family: "F-seq", Name: "conc-fail-tol",
 		Plans: []PlanSpec{{Blocks: []BlockSpec{{Seqs: []SeqSpec{Seq(A(Perm)), Seq(A()), Seq(A()), Seq(A())}, Conc: 2, Tol: 1}}}}})
+	// an action that overruns its timeout (the plugin honours its context): the failed sequence is tolerated and the
+	// next sequences / the next block start; a call that was not told to stop would still be in flight then
+	for _, v := range []struct {
+		name      string
+		conc, tol int
+		seqs      []SeqSpec
+	}{
+		{"c1-tall", 1, -1, []SeqSpec{Seq(A(Overrun)), Seq(A()), Seq(A())}},
+		{"c1-t1-second", 1, 1, []SeqSpec{Seq(A()), Seq(A(Overrun), A()), Seq(A())}},
+		{"c2-t1", 2, 1, []SeqSpec{Seq(A(Overrun)), Seq(A()), Seq(A()), Seq(A())}},
+		{"c2-t2-two", 2, 2, []SeqSpec{Seq(A(Overrun)), Seq(A(Overrun)), Seq(A()), Seq(A())}},
+		{"c1-retry", 1, 0, []SeqSpec{Seq(AR(1, Overrun, OK), A()), Seq(A())}},
+	} {
+		out = append(out, &Scenario{Family: "F-seq", Name: "conc-overrun-" + v.name, TimeoutRace: true, MaxTicks: 10,
+			Plans: []PlanSpec{{Blocks: []BlockSpec{{Seqs: v.seqs, Conc: v.conc, Tol: v.tol}, {Seqs: okSeqs(2, 1), Conc: 1}}}}})
+	}
 	// two plans on one workstream
 	out = append(out, &Scenario{Family: "F-seq", Name: "conc-2plans",
 		Plans: []PlanSpec{
@@ -194,6 +210,28 @@ func FamilyChk(tier string) []*Scenario {
 				ps.Bypass.Actions[0] = A(Perm)
 			}
 			out = append(out, &Scenario{Family: "F-chk", Name: fmt.Sprintf("chk-both-l%d-f%d", level, fi), Plans: []PlanSpec{ps}})
+		}
+	}
+	// pairs: a single group with two actions of which one fails, both orders, on an otherwise minimal plan: small enough
+	// for every order of the two parallel check actions against everything that follows (a group must not be left
+	// while one of its actions is still executing)
+	for level := 0; level < 2; level++ {
+		for _, g := range groupNames {
+			for failIdx := 0; failIdx < 2; failIdx++ {
+				ps := PlanSpec{Blocks: []BlockSpec{{Seqs: okSeqs(1, 1), Conc: 1}}}
+				acts := []ActSpec{A(), A()}
+				acts[failIdx] = A(Perm)
+				c := &ChecksSpec{Actions: acts}
+				lv := "plan"
+				if level == 0 {
+					setGroup(&ps.Bypass, &ps.Pre, &ps.Cont, &ps.Post, &ps.Def, g, c)
+				} else {
+					lv = "block"
+					b := &ps.Blocks[0]
+					setGroup(&b.Bypass, &b.Pre, &b.Cont, &b.Post, &b.Def, g, c)
+				}
+				out = append(out, &Scenario{Family: "F-chk", Name: fmt.Sprintf("chk-pair-%s-%s-f%d", lv, g, failIdx), Plans: []PlanSpec{ps}})
+			}
 		}
 	}
 	return out
